@@ -306,6 +306,26 @@ class World:
         if t == "CACHE":
             Vertex.NEIGHBOR_CACHING = bool(op[1])
             return ("none", None)
+        if t == "CLONE":
+            # the whole graph is replaced by a copy of itself (deepcopy / dill / nrpickler round trip): a copy is a LIVE graph
+            # that must go on behaving like the original - for the model this is no operation at all
+            import copy as _copy
+            import pickle as _pickle
+            import dill as _dill
+            from edgegraph.output import nrpickler as _nrp
+            if op[1] == "deepcopy":
+                new = _copy.deepcopy(self.objs)
+            elif op[1] == "nrpickle":
+                new = _pickle.loads(_nrp.dumps(self.objs))
+            else:
+                new = _dill.loads(_dill.dumps(self.objs))
+            self.objs[:] = new
+            self.__dict__.pop("_shared_lists", None)
+            return ("none", None)
+        if t == "LAU":
+            # a law set is a BaseObject: it can be enrolled in a universe's books on its own side (documented for UniverseLaws)
+            g(op[1], W).add_to_universe(g(op[2], U))
+            return ("none", None)
         if t == "LAD":
             adj = {}
             for key, vals in op[2]:
@@ -449,8 +469,23 @@ def c_outcome(out):
     return "Raised IllTyped"
 
 
+INVISIBLE = ("CLONE", "LAU")      # operations that are no step of the model (what they may not change is judged by clone_violations)
+
+
 def c_history(ops, res):
-    return C.clist([f"({c_op(o)}, ({c_outcome(r['out'])}, {c_state(r['snap'])}))" for o, r in zip(ops, res)], str)
+    return C.clist([f"({c_op(o)}, ({c_outcome(r['out'])}, {c_state(r['snap'])}))" for o, r in zip(ops, res) if o[0] not in INVISIBLE], str)
+
+
+def clone_violations(ops, res, fields=("kind", "vlinks", "lverts", "vunis", "uverts", "ulaws", "lapp", "rules")):
+    """replacing the graph by a copy of itself changes nothing observable"""
+    for i, (o, r) in enumerate(zip(ops, res)):
+        if o[0] == "CLONE" and i > 0 and r["out"][0] != "raise":
+            for f in fields:
+                if r["snap"][f] != res[i - 1]["snap"][f]:
+                    return [f"call {i} {o}: the {o[1]} copy of the graph differs from the original in {f}: {res[i - 1]['snap'][f]} -> {r['snap'][f]}"]
+        if o[0] == "CLONE" and r["out"][0] == "raise":
+            return [f"call {i} {o}: copying the graph raised {r['out'][1]}"]
+    return []
 
 
 HIST_TYPE = "list (op * (outcome * state))"
@@ -545,6 +580,12 @@ def gen_history(rng, weights, nops, seed_ops=None):
                     op = ["SA", pick(Ls), pick(us) if us and rng.random() < 0.8 else None]
             elif t == "CACHE":
                 op = ["CACHE", rng.random() < 0.5]
+            elif t == "CLONE":
+                if ops:
+                    op = ["CLONE", rng.choice(["deepcopy", "dill", "nrpickle"])]
+            elif t == "LAU":
+                if Ls and us:
+                    op = ["LAU", pick(Ls), pick(us)]
             if op is None:
                 continue
             n0 = len(w.objs)
@@ -590,7 +631,7 @@ def _ren(x, lo, hi, n):
 
 ID_POS = {"NV": [], "NU": [2], "NL": [1], "NE": [2, 3], "SV1": [1, 2], "SV2": [1, 2], "A2L": [1, 2], "RFL": [1, 2],
           "LAV": [1, 2], "LUF": [1, 2], "LFT": [1, 3], "UNL": [1, 2], "UAV": [1, 2], "URV": [1, 2], "VAU": [1, 2],
-          "VRU": [1, 2], "SL": [1, 2], "SA": [1, 2], "CACHE": []}
+          "VRU": [1, 2], "SL": [1, 2], "SA": [1, 2], "CACHE": [], "CLONE": [], "LAU": [1, 2]}
 IDLIST_POS = {"NV": [2, 3], "NU": [1]}
 
 
